@@ -699,6 +699,10 @@ class Expander:
 
     # ---- traversal ----------------------------------------------------------------------------------------------
     def _try(self, s: ast.stmt, cname, stack) -> Optional[List[ast.stmt]]:
+        g = self._gen_consumer(s, cname, stack)
+        if g is not None:
+            return g
+
         def res(c):
             if not isinstance(c, ast.Call):
                 return None
@@ -756,6 +760,347 @@ class Expander:
                     s.orelse = self.block(s.orelse, cname, stack)
                     return ex + [s]
         return None
+
+    # ---- generator functions ------------------------------------------------------------------------------------------
+    _GT = "__gen_target__"
+
+    def _is_new_generator(self, call, cname, stack):
+        if not isinstance(call, ast.Call):
+            return None
+        r = self.resolve(call, cname) or None
+        if r is None:
+            r2 = self.resolve_any(call, cname)
+            if r2 is None:
+                return None
+            r = (r2[0], r2[1], "method" if r2[2] == "cm-method" else "function")
+        d, q, kind = r
+        if q in self.known or q in stack or len(stack) > MAX_DEPTH or d.decorator_list or d.args.vararg or d.args.kwarg:
+            return None
+        if not _contains(d.body, (ast.Yield, ast.YieldFrom)):
+            return None
+        if _contains(d.body, (ast.Await, ast.Global, ast.Nonlocal, ast.FunctionDef, ast.AsyncFunctionDef, ast.ClassDef, ast.Lambda)):
+            return None
+        # every yield is a statement of its own
+        for b in d.body:
+            for n in _walk_no_nested(b):
+                if isinstance(n, (ast.Yield, ast.YieldFrom)):
+                    pass
+        stm = [n for b in d.body for n in _walk_no_nested(b) if isinstance(n, ast.Expr) and isinstance(n.value, (ast.Yield, ast.YieldFrom))]
+        allY = [n for b in d.body for n in _walk_no_nested(b) if isinstance(n, (ast.Yield, ast.YieldFrom))]
+        if len(stm) != len(allY) or len(allY) > 48:
+            return None
+        return d, q, kind
+
+    def _gen_consumer(self, s, cname, stack) -> Optional[List[ast.stmt]]:
+        """statements that consume a generator function added after the rules were written:
+             for T in G(a): BODY                       -> body of G with `T = <yielded>; BODY` at every yield
+             X = list(G(a)) / tuple(..) / dict(G(a))    -> X = [] / {} filled at every yield
+             f.writelines(G(a))                         -> f.write(<yielded>) at every yield
+             ... SEP.join(G(a)) ...                     -> the parts collected into a list first"""
+        def fresh(prefix):
+            self._n += 1
+            return f"_{prefix}{self._n}"
+
+        # --- rewrite the other consumers into the for form
+        if isinstance(s, (ast.Assign, ast.AnnAssign)) and isinstance(s.value, ast.Call) and isinstance(s.value.func, ast.Name) and s.value.func.id in ("list", "tuple", "dict") \
+                and len(s.value.args) == 1 and not s.value.keywords and self._is_new_generator(s.value.args[0], cname, stack):
+            tgt = s.targets[0] if isinstance(s, ast.Assign) and len(s.targets) == 1 else (s.target if isinstance(s, ast.AnnAssign) else None)
+            if tgt is None or not _pure(tgt):
+                return None
+            kind = s.value.func.id
+            init = ast.copy_location(ast.Assign(targets=[tgt], value=(ast.Dict(keys=[], values=[]) if kind == "dict" else ast.List(elts=[], ctx=ast.Load()))), s)
+            load = copy.deepcopy(tgt)
+            for x in ast.walk(load):
+                if hasattr(x, "ctx"):
+                    x.ctx = ast.Load()
+            if kind == "dict":
+                k, v = fresh("k"), fresh("v")
+                body = [ast.Assign(targets=[ast.Subscript(value=load, slice=ast.Name(id=k, ctx=ast.Load()), ctx=ast.Store())], value=ast.Name(id=v, ctx=ast.Load()))]
+                loop = ast.For(target=ast.Tuple(elts=[ast.Name(id=k, ctx=ast.Store()), ast.Name(id=v, ctx=ast.Store())], ctx=ast.Store()), iter=s.value.args[0], body=body, orelse=[])
+            else:
+                e = fresh("e")
+                body = [ast.Expr(value=ast.Call(func=ast.Attribute(value=load, attr="append", ctx=ast.Load()), args=[ast.Name(id=e, ctx=ast.Load())], keywords=[]))]
+                loop = ast.For(target=ast.Name(id=e, ctx=ast.Store()), iter=s.value.args[0], body=body, orelse=[])
+            ast.copy_location(loop, s)
+            for x in (init, loop):
+                ast.fix_missing_locations(x)
+            ex = self._for_gen(loop, cname, stack)
+            return None if ex is None else [init] + ex
+        if isinstance(s, ast.Expr) and isinstance(s.value, ast.Call) and isinstance(s.value.func, ast.Attribute) and s.value.func.attr == "writelines" and len(s.value.args) == 1 \
+                and _pure(s.value.func.value) and self._is_new_generator(s.value.args[0], cname, stack):
+            e = fresh("line")
+            body = [ast.Expr(value=ast.Call(func=ast.Attribute(value=s.value.func.value, attr="write", ctx=ast.Load()), args=[ast.Name(id=e, ctx=ast.Load())], keywords=[]))]
+            loop = ast.copy_location(ast.For(target=ast.Name(id=e, ctx=ast.Store()), iter=s.value.args[0], body=body, orelse=[]), s)
+            ast.fix_missing_locations(loop)
+            return self._for_gen(loop, cname, stack)
+        if isinstance(s, (ast.Assign, ast.AnnAssign, ast.Return, ast.Expr, ast.AugAssign)):
+            # [ELT for T in G(a) if C] somewhere inside the statement: built by an explicit loop into a temporary first
+            comps = [n for n in ast.walk(s) if isinstance(n, (ast.ListComp, ast.GeneratorExp)) and len(n.generators) == 1 and not n.generators[0].is_async
+                     and self._is_new_generator(n.generators[0].iter, cname, stack)]
+            if len(comps) == 1:
+                c0 = comps[0]
+                tmp = fresh("items")
+                init = ast.copy_location(ast.Assign(targets=[ast.Name(id=tmp, ctx=ast.Store())], value=ast.List(elts=[], ctx=ast.Load())), s)
+                app = ast.Expr(value=ast.Call(func=ast.Attribute(value=ast.Name(id=tmp, ctx=ast.Load()), attr="append", ctx=ast.Load()), args=[c0.elt], keywords=[]))
+                body = [app]
+                for cond in reversed(c0.generators[0].ifs):
+                    body = [ast.If(test=cond, body=body, orelse=[])]
+                loop = ast.copy_location(ast.For(target=c0.generators[0].target, iter=c0.generators[0].iter, body=body, orelse=[]), s)
+                for x in (init, loop):
+                    ast.fix_missing_locations(x)
+                ex = self._for_gen(loop, cname, stack)
+                if ex is None:
+                    return None
+
+                class RC(ast.NodeTransformer):
+                    def visit_ListComp(self_, n):
+                        if n is c0:
+                            return ast.copy_location(ast.Name(id=tmp, ctx=ast.Load()), n)
+                        self_.generic_visit(n)
+                        return n
+
+                    visit_GeneratorExp = visit_ListComp
+
+                s2 = RC().visit(s)
+                ast.fix_missing_locations(s2)
+                return [init] + ex + self.block([s2], cname, stack)
+            # list(G(a)) / dict(G(a)) somewhere inside the statement: computed into a temporary first
+            wraps = [n for n in ast.walk(s) if isinstance(n, ast.Call) and isinstance(n.func, ast.Name) and n.func.id in ("list", "tuple", "dict") and len(n.args) == 1 and not n.keywords
+                     and self._is_new_generator(n.args[0], cname, stack)]
+            if len(wraps) == 1 and not (isinstance(s, (ast.Assign, ast.AnnAssign)) and s.value is wraps[0]):
+                tmp = fresh("items")
+                pre = ast.copy_location(ast.Assign(targets=[ast.Name(id=tmp, ctx=ast.Store())], value=copy.deepcopy(wraps[0])), s)
+                ast.fix_missing_locations(pre)
+                ex = self._gen_consumer(pre, cname, stack)
+                if ex is None:
+                    return None
+
+                class RW(ast.NodeTransformer):
+                    def visit_Call(self_, n):
+                        if n is wraps[0]:
+                            return ast.copy_location(ast.Name(id=tmp, ctx=ast.Load()), n)
+                        self_.generic_visit(n)
+                        return n
+
+                s2 = RW().visit(s)
+                ast.fix_missing_locations(s2)
+                return ex + self.block([s2], cname, stack)
+            joins = [n for n in ast.walk(s) if isinstance(n, ast.Call) and isinstance(n.func, ast.Attribute) and n.func.attr == "join" and isinstance(n.func.value, ast.Constant)
+                     and len(n.args) == 1 and self._is_new_generator(n.args[0], cname, stack)]
+            if len(joins) == 1:
+                parts, e = fresh("parts"), fresh("e")
+                init = ast.copy_location(ast.Assign(targets=[ast.Name(id=parts, ctx=ast.Store())], value=ast.List(elts=[], ctx=ast.Load())), s)
+                body = [ast.Expr(value=ast.Call(func=ast.Attribute(value=ast.Name(id=parts, ctx=ast.Load()), attr="append", ctx=ast.Load()), args=[ast.Name(id=e, ctx=ast.Load())], keywords=[]))]
+                loop = ast.copy_location(ast.For(target=ast.Name(id=e, ctx=ast.Store()), iter=joins[0].args[0], body=body, orelse=[]), s)
+                for x in (init, loop):
+                    ast.fix_missing_locations(x)
+                ex = self._for_gen(loop, cname, stack)
+                if ex is None:
+                    return None
+                joins[0].args[0] = ast.copy_location(ast.Name(id=parts, ctx=ast.Load()), joins[0])
+                return [init] + ex + self.block([s], cname, stack)
+        if isinstance(s, ast.For) and not s.orelse:
+            return self._for_gen(s, cname, stack)
+        return None
+
+    def _for_gen(self, s: ast.For, cname, stack) -> Optional[List[ast.stmt]]:
+        g = self._is_new_generator(s.iter, cname, stack)
+        if g is None:
+            return None
+        d, q, kind = g
+        # how the caller's body leaves an iteration decides where a yield may stand
+        def own(kinds):
+            out = []
+            st = list(s.body)
+            while st:
+                x = st.pop()
+                if isinstance(x, kinds):
+                    out.append(x)
+                if isinstance(x, (ast.For, ast.While, ast.FunctionDef, ast.AsyncFunctionDef, ast.ClassDef, ast.Lambda)):
+                    continue
+                st.extend(ast.iter_child_nodes(x))
+            return out
+
+        has_continue, has_break = bool(own(ast.Continue)), bool(own(ast.Break))
+        d2 = copy.deepcopy(d)
+        # positions of the yields inside G
+        def tail_ok(body, in_loop_depth, is_tail_of_func):
+            """walk G: every yield statement must be (a) inside a loop as the last thing of an iteration when the caller
+            continues, (b) inside exactly one loop that ends G when the caller breaks"""
+            ok = True
+            for i, st in enumerate(body):
+                last = i == len(body) - 1
+                if isinstance(st, ast.Expr) and isinstance(st.value, (ast.Yield, ast.YieldFrom)):
+                    if isinstance(st.value, ast.YieldFrom):
+                        if has_break and not (in_loop_depth == 0 and last and is_tail_of_func):
+                            ok = False
+                    else:
+                        if has_continue and not (in_loop_depth >= 1 and last):
+                            ok = False
+                        if has_break and not (in_loop_depth == 1):
+                            ok = False
+                elif isinstance(st, (ast.For, ast.While)):
+                    inner_tail = last and is_tail_of_func
+                    if has_break and _contains(st.body, (ast.Yield, ast.YieldFrom)) and not (in_loop_depth == 0 and inner_tail):
+                        ok = False
+                    ok = ok and tail_ok(st.body, in_loop_depth + 1, False) and tail_ok(st.orelse, in_loop_depth, last and is_tail_of_func)
+                elif isinstance(st, ast.If):
+                    # a yield that ends an if-branch ends the iteration only when the if itself is last
+                    for br in (st.body, st.orelse):
+                        if has_continue and _contains(br, (ast.Yield, ast.YieldFrom)) and not last:
+                            ok = False
+                        ok = ok and tail_ok(br, in_loop_depth, last and is_tail_of_func)
+                elif isinstance(st, ast.Try):
+                    for br in [st.body, st.orelse, st.finalbody] + [h.body for h in st.handlers]:
+                        if has_continue and _contains(br, (ast.Yield, ast.YieldFrom)) and not last:
+                            ok = False
+                        ok = ok and tail_ok(br, in_loop_depth, last and is_tail_of_func)
+                elif isinstance(st, ast.With):
+                    if has_continue and _contains(st.body, (ast.Yield, ast.YieldFrom)) and not last:
+                        ok = False
+                    ok = ok and tail_ok(st.body, in_loop_depth, last and is_tail_of_func)
+            return ok
+
+        gbody = [b for b in d2.body if not (isinstance(b, ast.Expr) and isinstance(b.value, ast.Constant) and isinstance(b.value.value, str))]
+        if not tail_ok(gbody, 0, True):
+            return None
+        marks = []
+        # a generator that only ever yields one of its own locals (`for m in snapshot: ... yield m`) into a plain name: that
+        # local *is* the caller's loop variable (no second name for the same object)
+        ynames = {n.value.value.id if isinstance(n.value.value, ast.Name) else None for b in gbody for n in _walk_no_nested(b)
+                  if isinstance(n, ast.Expr) and isinstance(n.value, ast.Yield)}
+        has_yf = any(isinstance(n, ast.YieldFrom) for b in gbody for n in _walk_no_nested(b))
+        same_local = None
+        if isinstance(s.target, ast.Name) and len(ynames) == 1 and None not in ynames and not has_yf:
+            v_ = next(iter(ynames))
+            params_ = {a.arg for a in d2.args.posonlyargs + d2.args.args + d2.args.kwonlyargs}
+            stored_ = {n.id for b in gbody for n in _walk_no_nested(b) if isinstance(n, ast.Name) and isinstance(n.ctx, ast.Store)}
+            if v_ in stored_ and v_ not in params_:
+                same_local = v_
+                for b in gbody:
+                    for n in _walk_no_nested(b):
+                        if isinstance(n, ast.Name) and n.id == v_:
+                            n.id = Expander._GT
+
+        class Y(ast.NodeTransformer):
+            def visit_Expr(self_, n):
+                if isinstance(n.value, ast.Yield) and same_local is not None:
+                    marks.append(1)
+                    return ast.copy_location(ast.Expr(value=ast.Name(id=Expander._MARK, ctx=ast.Load())), n)
+                if isinstance(n.value, ast.Yield):
+                    marks.append(1)
+                    v = n.value.value if n.value.value is not None else ast.Constant(value=None)
+                    return [ast.copy_location(ast.Assign(targets=[ast.Name(id=Expander._GT, ctx=ast.Store())], value=v), n),
+                            ast.copy_location(ast.Expr(value=ast.Name(id=Expander._MARK, ctx=ast.Load())), n)]
+                if isinstance(n.value, ast.YieldFrom):
+                    marks.append(1)
+                    return ast.copy_location(ast.For(target=ast.Name(id=Expander._GT, ctx=ast.Store()), iter=n.value.value,
+                                                     body=[ast.Expr(value=ast.Name(id=Expander._MARK, ctx=ast.Load()))], orelse=[]), n)
+                return n
+
+        Y().visit(d2)
+        ast.fix_missing_locations(d2)
+        ex = self.expand(s.iter, d2, q, kind, "stmt", None, cname, stack)
+        if ex is None:
+            return None
+        inner = self.block(s.body, cname, stack)
+        target = s.target
+
+        # `for k, v in G(): BODY` with `yield (a, <expr>)`: when BODY reads k and v once each and all but one yielded element are
+        # plain paths / constants, the elements are written where BODY reads them (no temporaries)
+        tnames = [e.id for e in target.elts] if isinstance(target, ast.Tuple) and all(isinstance(e, ast.Name) for e in target.elts) else None
+        direct = False
+        if tnames:
+            loads_ = {}
+            stores_ = set()
+            for st_ in inner:
+                for n_ in ast.walk(st_):
+                    if isinstance(n_, ast.Name) and n_.id in tnames:
+                        if isinstance(n_.ctx, ast.Load):
+                            loads_[n_.id] = loads_.get(n_.id, 0) + 1
+                        else:
+                            stores_.add(n_.id)
+            direct = not stores_ and all(loads_.get(t_, 0) == 1 for t_ in tnames)
+
+        direct_name = False
+        if isinstance(target, ast.Name):
+            l_ = sum(1 for st_ in inner for n_ in ast.walk(st_) if isinstance(n_, ast.Name) and n_.id == target.id and isinstance(n_.ctx, ast.Load))
+            s_ = sum(1 for st_ in inner for n_ in ast.walk(st_) if isinstance(n_, ast.Name) and n_.id == target.id and not isinstance(n_.ctx, ast.Load))
+            direct_name = l_ == 1 and s_ == 0 and len(inner) == 1
+        # BODY == `X.append(T)`: a `yield from it` is `X.extend(it)`
+        append_to = None
+        if isinstance(target, ast.Name) and len(inner) == 1 and isinstance(inner[0], ast.Expr) and isinstance(inner[0].value, ast.Call) and isinstance(inner[0].value.func, ast.Attribute) \
+                and inner[0].value.func.attr == "append" and len(inner[0].value.args) == 1 and isinstance(inner[0].value.args[0], ast.Name) and inner[0].value.args[0].id == target.id:
+            append_to = inner[0].value.func.value
+
+        class Put(ast.NodeTransformer):
+            def visit_Expr(self_, n):
+                if isinstance(n.value, ast.Name) and n.value.id == Expander._MARK:
+                    return copy.deepcopy(inner)
+                return n
+
+            def visit_Assign(self_, n):
+                self_.generic_visit(n)
+                if len(n.targets) == 1 and isinstance(n.targets[0], ast.Name) and n.targets[0].id.startswith(Expander._GT):
+                    return ast.copy_location(ast.Assign(targets=[copy.deepcopy(target)], value=n.value), n)
+                return n
+
+            def visit_For(self_, n):
+                self_.generic_visit(n)
+                if isinstance(n.target, ast.Name) and n.target.id.startswith(Expander._GT):
+                    n.target = copy.deepcopy(target)
+                return n
+
+            def visit_Name(self_, n):
+                if n.id.startswith(Expander._GT) and isinstance(target, ast.Name):
+                    return ast.copy_location(ast.Name(id=target.id, ctx=n.ctx), n)
+                return n
+
+        def fuse(stmts):
+            """[`__gen_target__ = (a, b)`, <mark>] -> BODY[k := a, v := b] when allowed"""
+            res = []
+            i = 0
+            while i < len(stmts):
+                st = stmts[i]
+                nx = stmts[i + 1] if i + 1 < len(stmts) else None
+                if direct and isinstance(st, ast.Assign) and len(st.targets) == 1 and isinstance(st.targets[0], ast.Name) and st.targets[0].id.startswith(Expander._GT) \
+                        and isinstance(st.value, ast.Tuple) and len(st.value.elts) == len(tnames) and isinstance(nx, ast.Expr) and isinstance(nx.value, ast.Name) and nx.value.id == Expander._MARK \
+                        and sum(0 if (_pure(e_) or isinstance(e_, ast.Constant)) else 1 for e_ in st.value.elts) <= 1:
+                    sub = _Rename({}, dict(zip(tnames, st.value.elts)))
+                    res.extend(sub.visit(copy.deepcopy(b_)) for b_ in inner)
+                    i += 2
+                    continue
+                if direct_name and isinstance(st, ast.Assign) and len(st.targets) == 1 and isinstance(st.targets[0], ast.Name) and st.targets[0].id.startswith(Expander._GT) \
+                        and isinstance(nx, ast.Expr) and isinstance(nx.value, ast.Name) and nx.value.id == Expander._MARK:
+                    sub = _Rename({}, {target.id: st.value})
+                    res.extend(sub.visit(copy.deepcopy(b_)) for b_ in inner)
+                    i += 2
+                    continue
+                if append_to is not None and isinstance(st, ast.For) and isinstance(st.target, ast.Name) and st.target.id.startswith(Expander._GT) and len(st.body) == 1 \
+                        and isinstance(st.body[0], ast.Expr) and isinstance(st.body[0].value, ast.Name) and st.body[0].value.id == Expander._MARK and not st.orelse:
+                    res.append(ast.copy_location(ast.Expr(value=ast.Call(func=ast.Attribute(value=copy.deepcopy(append_to), attr="extend", ctx=ast.Load()), args=[st.iter], keywords=[])), st))
+                    i += 1
+                    continue
+                for fld in ("body", "orelse", "finalbody"):
+                    v_ = getattr(st, fld, None)
+                    if isinstance(v_, list) and v_ and isinstance(v_[0], ast.stmt):
+                        setattr(st, fld, fuse(v_))
+                if isinstance(st, ast.Try):
+                    for h_ in st.handlers:
+                        h_.body = fuse(h_.body)
+                res.append(st)
+                i += 1
+            return res
+
+        ex = fuse(ex)
+        out = []
+        for st in ex:
+            r_ = Put().visit(st)
+            out.extend(r_ if isinstance(r_, list) else [r_])
+        for st in out:
+            ast.fix_missing_locations(st)
+        self.sites.append(f"generator {q} expanded at line {getattr(s, 'lineno', 0)}")
+        return out
 
     _MARK = "__with_body__"
 
